@@ -70,8 +70,13 @@ DPID_POOL = sorted(set(
 def gen_plan(seed, tier):
   r = Rng(seed)
   nsw = r.randint(2, 10 if (tier == "thorough" and r.chance(0.2)) else 6)
+  # the far corner of the quantifier: twelve switches, every pair joined by
+  # two cables (276 ports to probe); a handful of runs per batch
+  dense = Rng(mix(seed, "dense")).chance(0.012)
+  if dense:
+    nsw = 12
   dpids = r.sample(DPID_POOL, nsw)
-  cfg = {"dpids": dpids, "link_timeout": r.pick([4, 4, 10]),
+  cfg = {"dpids": dpids, "link_timeout": 10 if dense else r.pick([4, 4, 10]),
          "segment": r.chance(0.3), "delay": r.chance(0.3),
          "link_delay": r.pick([0, 0, 2]), "max_buffers": r.pick([0, 4, 100]),
          # the components' own launch options
@@ -91,11 +96,12 @@ def gen_plan(seed, tier):
   pdens = r.pick([0.3, 0.5, 0.8])
   for i in range(nsw):
     for j in range(i + 1, nsw):
-      if j == i + 1 and r.chance(0.8) or r.chance(pdens):
-        for _ in range(r.wpick([(4, 1), (1, 2)])):
+      if dense or j == i + 1 and r.chance(0.8) or r.chance(pdens):
+        for _ in range(2 if dense else r.wpick([(4, 1), (1, 2)])):
           a, b = dpids[i], dpids[j]
           pa, pb = newport(a), newport(b)
-          dirs = r.wpick([(6, "both"), (1, "ab"), (1, "ba")])
+          dirs = "both" if dense else r.wpick([(6, "both"), (1, "ab"),
+                                               (1, "ba")])
           if dirs in ("both", "ab"):
             links.append([a, pa, b, pb])
           if dirs in ("both", "ba"):
@@ -116,7 +122,10 @@ def gen_plan(seed, tier):
     cfg["ports"][str(d)] = sorted(ps)
   steps = []
   gone = []
-  for _ in range(r.randint(0, 6)):
+  if dense:
+    cfg["dense"] = True
+    cfg["segment"] = cfg["delay"] = False
+  for _ in range(0 if dense else r.randint(0, 6)):
     k = r.wpick([(5, "link"), (2, "reset"), (1, "silent"), (1, "loss"),
                  (2, "port"), (3, "advance")])
     if k == "link" and links:
